@@ -97,6 +97,9 @@ func NewGraph(t *sim.Tape, lsys *linking.LinkSystem, maxBlocks int, danglePct in
 		jsonBlock := i < nb-1 && t.Pct(15, "g.dagjson")
 		if i < nb-1 && t.Pct(12, "g.scalarblock") {
 			v = model.StringV("scalar block")
+		} else if i < nb-1 && len(avail) > 0 && t.Pct(10, "g.linkblock") {
+			// a block whose whole content is one link to an earlier block (a redirect)
+			v = model.LinkV(avail[t.Choice(len(avail), "g.linkblock.to")])
 		} else {
 			v = graphValue(t, links, &budget, 0, jsonBlock || i == nb-1)
 		}
